@@ -751,6 +751,169 @@ func c07Forward(s *source, e *emitter, rel, goName, calleeSuffix string, lit int
 		s.src(call.Fun), goName, rel, leanName, strings.Join(out, ", "))
 }
 
+// c07DecisionTree translates the decision structure of goName (lit > 0: of its lit-th function literal) — nested
+// `if / else if / else` statements with returns anywhere, other statements in between, a final return — into
+//
+//	def <lean> (atoms… : Bool) : Nat        index of the return statement reached (numbered in source order)
+//	def <lean>Exits : List String           the text of every return statement, by index
+//	def <lean>Atoms : List String           the source text of every atom, in the order of the parameters
+//
+// Conditions are built from `!`, `&&`, `||` and parentheses; every other sub-expression (`err != nil`,
+// `errors.Is(err, x)`, an identifier) is an ATOM named by the caller, in pre-order of the `if` statements (an `if`
+// without any return inside is skipped but still consumes its atoms, so that the names stay aligned with the source).
+// A variable that is re-assigned between two conditions therefore gives two different atoms.
+func c07DecisionTree(s *source, e *emitter, rel, goName string, lit int, leanName string, atoms []string) {
+	fd := s.findFunc(rel, goName)
+	fail := func(msg string) {
+		e.errors = append(e.errors, "c07DecisionTree "+goName+" ("+rel+"): "+msg)
+		e.printf("/-- MISSING: %s -/\ndef %s : Nat := 999999\n\n", msg, leanName)
+		e.stringList(leanName+"Exits", "MISSING", []string{"MISSING"})
+		e.stringList(leanName+"Atoms", "MISSING", []string{"MISSING"})
+	}
+	if fd == nil {
+		fail("function not found")
+		return
+	}
+	list := fd.Body.List
+	if lit > 0 {
+		k := 0
+		var fl *ast.FuncLit
+		ast.Inspect(fd.Body, func(nd ast.Node) bool {
+			if x, ok := nd.(*ast.FuncLit); ok {
+				k++
+				if k == lit {
+					fl = x
+				}
+			}
+			return true
+		})
+		if fl == nil {
+			fail("function literal not found")
+			return
+		}
+		list = fl.Body.List
+	}
+	// number the returns in source order (function literals nested deeper are not entered)
+	exitIdx := map[token.Pos]int{}
+	var exits []string
+	var number func(n ast.Node)
+	number = func(n ast.Node) {
+		ast.Inspect(n, func(nd ast.Node) bool {
+			switch x := nd.(type) {
+			case *ast.FuncLit:
+				return false
+			case *ast.ReturnStmt:
+				var rs []string
+				for _, r := range x.Results {
+					rs = append(rs, s.src(r))
+				}
+				exitIdx[x.Pos()] = len(exits)
+				exits = append(exits, strings.TrimSpace("return "+strings.Join(rs, ", ")))
+			}
+			return true
+		})
+	}
+	for _, st := range list {
+		number(st)
+	}
+	hasReturn := func(n ast.Node) bool {
+		found := false
+		ast.Inspect(n, func(nd ast.Node) bool {
+			switch nd.(type) {
+			case *ast.FuncLit:
+				return false
+			case *ast.ReturnStmt:
+				found = true
+			}
+			return true
+		})
+		return found
+	}
+	next := 0
+	var atomSrc []string
+	bad := ""
+	var cond func(x ast.Expr) string
+	cond = func(x ast.Expr) string {
+		switch v := x.(type) {
+		case *ast.ParenExpr:
+			return "(" + cond(v.X) + ")"
+		case *ast.UnaryExpr:
+			if v.Op == token.NOT {
+				return "(!" + cond(v.X) + ")"
+			}
+		case *ast.BinaryExpr:
+			if v.Op == token.LAND {
+				return "(" + cond(v.X) + " && " + cond(v.Y) + ")"
+			}
+			if v.Op == token.LOR {
+				return "(" + cond(v.X) + " || " + cond(v.Y) + ")"
+			}
+		}
+		if next >= len(atoms) {
+			bad = "more atoms in the source than names given: " + s.src(x)
+			return "false"
+		}
+		a := atoms[next]
+		next++
+		atomSrc = append(atomSrc, s.src(x))
+		return a
+	}
+	var walk func(list []ast.Stmt, cont func() string) string
+	walk = func(list []ast.Stmt, cont func() string) string {
+		if len(list) == 0 {
+			return cont()
+		}
+		rest := func() string { return walk(list[1:], cont) }
+		st := list[0]
+		if ls, ok := st.(*ast.LabeledStmt); ok {
+			st = ls.Stmt
+		}
+		switch x := st.(type) {
+		case *ast.ReturnStmt:
+			return fmt.Sprint(exitIdx[x.Pos()])
+		case *ast.BlockStmt:
+			return walk(x.List, rest)
+		case *ast.IfStmt:
+			c := cond(x.Cond)
+			if !hasReturn(x) {
+				// (its atoms are consumed; nested conditions of a return-free if are not named)
+				return rest()
+			}
+			thenE := walk(x.Body.List, rest)
+			var elseE string
+			if x.Else != nil {
+				elseE = walk([]ast.Stmt{x.Else}, rest)
+			} else {
+				elseE = rest()
+			}
+			return "(if " + c + " = true then " + thenE + " else " + elseE + ")"
+		case *ast.ForStmt, *ast.RangeStmt, *ast.SwitchStmt, *ast.SelectStmt, *ast.TypeSwitchStmt:
+			if hasReturn(x) {
+				bad = "return inside a loop / switch: outside the translated subset"
+			}
+			return rest()
+		}
+		return rest()
+	}
+	body := walk(list, func() string { bad = "control reaches the end without a return"; return "999999" })
+	if bad != "" {
+		fail(bad)
+		return
+	}
+	if next != len(atoms) {
+		fail(fmt.Sprintf("%d atom names given, %d atoms in the source", len(atoms), next))
+		return
+	}
+	e.printf("/-- index of the return statement `%s`%s in %s reaches (translated from its if / else-if tree) -/\ndef %s", goName,
+		map[bool]string{true: "'s function literal", false: ""}[lit > 0], rel, leanName)
+	for _, a := range atoms {
+		e.printf(" (%s : Bool)", a)
+	}
+	e.printf(" : Nat :=\n  %s\n\n", body)
+	e.stringList(leanName+"Exits", "the return statements of `"+goName+"` in source order", exits)
+	e.stringList(leanName+"Atoms", "the source text of the atoms of `"+leanName+"`, in parameter order", atomSrc)
+}
+
 func init() {
 	register("C07", func(s *source, e *emitter) {
 		const sf = "core/syncx/singleflight.go"
@@ -850,6 +1013,12 @@ func init() {
 		c07Forward(s, e, cn, "cacheNode.doTake", "cacheVal", 1, "cacheNodeDoTakeFwdCacheVal")
 		c07Forward(s, e, cn, "cacheNode.doTake", "setCacheWithNotFound", 1, "cacheNodeDoTakeFwdNotFound")
 		c07Forward(s, e, cn, "cacheNode.doGetCache", "rds.GetCtx", 0, "cacheNodeDoGetCacheFwdGet")
+		// round 5: whole decision trees (nested if / else-if with re-assigned variables)
+		c07DecisionTree(s, e, cn, "cacheNode.doTake", 1, "doTakeClosureExit",
+			[]string{"cacheErr", "cachePlaceholder", "cacheNotFound", "queryNotFound", "setNfErr", "queryErr", "cacheValErr"})
+		c07DecisionTree(s, e, cn, "cacheNode.doTake", 0, "doTakeExit", []string{"flightErr", "fresh"})
+		c07DecisionTree(s, e, cn, "cacheNode.doGetCache", 0, "doGetCacheExit", []string{"getErr", "empty", "isPlaceholder"})
+		c07DecisionTree(s, e, cn, "cacheNode.processCache", 0, "processCacheExit", []string{"unmarshalOk", "delErr"})
 		// round 5: negative caching
 		c07Shape(s, e, cn, "cacheNode.setCacheWithNotFound", "cacheNodeSetCacheWithNotFoundShape")
 		c07Forward(s, e, cn, "cacheNode.setCacheWithNotFound", "SetnxExCtx", 0, "cacheNodeSetNotFoundFwd")
